@@ -99,6 +99,10 @@ def phi(c, a, b):
         return a
     if c == FALSE:
         return b
+    if a == TRUE and b == FALSE:
+        return c
+    if a == FALSE and b == TRUE:
+        return neg_cond(c)
     if isinstance(a, tuple) and isinstance(b, tuple) and a and b and a[0] == 'struct' and b[0] == 'struct' \
             and isinstance(a[2], dict) and isinstance(b[2], dict) and a[2] and set(a[2]) == set(b[2]):
         # a selection between two struct values is the struct of the selections (fields are read one by one)
@@ -138,6 +142,53 @@ def payload(o):
             return payload(o[2])
         return phi(o[1], payload(o[2]), payload(o[3]))
     return ('payload', o)
+
+
+def _is_ref_tree(v):
+    if not (isinstance(v, tuple) and v):
+        return False
+    if v[0] == 'ref':
+        return True
+    return v[0] == 'phi' and _is_ref_tree(v[2]) and _is_ref_tree(v[3])
+
+
+def _cplace(v):
+    if v[0] == 'ref':
+        return v[1]
+    return ('cplace', v[1], _cplace(v[2]), _cplace(v[3]))
+
+
+def opt_eq(a, b):
+    """Condition term for `a == b` on Option values (None if neither side exposes its constructor)."""
+    if a[0] == 'phi' and a[2][0] in ('some', 'none', 'phi') and a[3][0] in ('some', 'none', 'phi'):
+        x, y = opt_eq(a[2], b), opt_eq(a[3], b)
+        return None if x is None or y is None else phi(a[1], x, y)
+    if b[0] == 'phi' and b[2][0] in ('some', 'none', 'phi') and b[3][0] in ('some', 'none', 'phi'):
+        return opt_eq(b, a)
+    if a[0] == 'none' and b[0] == 'none':
+        return TRUE
+    if (a[0] == 'none' and b[0] == 'some') or (a[0] == 'some' and b[0] == 'none'):
+        return FALSE
+    if a[0] == 'some' and b[0] == 'some':
+        x, y = a[1], b[1]
+        if x == y and isinstance(x, tuple) and x and x[0] in ('front', 'back', 'get', 'child', 'in'):
+            return TRUE     # the same stored value on both sides (values are finite: the crate asserts it on every input)
+        for p_, q_ in ((x, y), (y, x)):
+            if isinstance(p_, tuple) and p_[:2] == ('op', 'partial_cmp') and isinstance(q_, tuple) and q_ and q_[0] == 'const' \
+                    and q_[1].startswith('std::cmp::Ordering::'):
+                rel = {'Greater': 'gt', 'Less': 'lt', 'Equal': 'eq'}.get(q_[1].split('::')[-1])
+                if rel:
+                    return op(rel, p_[2][0], p_[2][1])
+        return op('eq', x, y)
+    if a[0] == 'none':
+        return neg_cond(is_some(b))
+    if b[0] == 'none':
+        return neg_cond(is_some(a))
+    if a[0] == 'some':
+        return conj([is_some(b), op('eq', a[1], payload(b))])
+    if b[0] == 'some':
+        return conj([is_some(a), op('eq', payload(a), b[1])])
+    return None
 
 
 def opt_project(t, f):
@@ -412,6 +463,8 @@ class VG:
             v = self.value_noderef(inner, fr)
             if isinstance(v, tuple) and v and v[0] == 'ref':
                 return v[1]
+            if isinstance(v, tuple) and v and v[0] == 'phi' and _is_ref_tree(v):
+                return _cplace(v)       # a place chosen by a condition
             return self.place_of(inner, fr)
         if k == 'local':
             if e['id'] == fr.selfid:
@@ -459,6 +512,8 @@ class VG:
         k = p[0]
         if k == 'field':
             return self.get_field(p[1])
+        if k == 'cplace':
+            return phi(p[1], self.read_place(p[2]), self.read_place(p[3]))
         if k == 'lfield':
             cur = self.read_place(p[1])
             if isinstance(cur, tuple) and cur and cur[0] == 'struct' and isinstance(cur[2], dict) and p[2] in cur[2]:
@@ -493,6 +548,14 @@ class VG:
             self.write_place(p[1], ('set_back', self.read_place(p[1]), t), node)
         elif k == 'front':
             self.write_place(p[1], ('set_front', self.read_place(p[1]), t), node)
+        elif k == 'cplace':
+            # a write through a reference chosen by condition c: the chosen place takes the value, the other keeps its own
+            from .terms import map_term
+            c_ = p[1]
+            t_yes = map_term(t, lambda n_: (n_[2] if n_[0] == 'phi' and n_[1] == c_ else n_)) if isinstance(t, tuple) else t
+            t_no = map_term(t, lambda n_: (n_[3] if n_[0] == 'phi' and n_[1] == c_ else n_)) if isinstance(t, tuple) else t
+            self.write_place(p[2], phi(c_, t_yes, self.read_place(p[2])), node)
+            self.write_place(p[3], phi(c_, self.read_place(p[3]), t_no), node)
         elif k == 'lfield':
             cur = self.read_place(p[1])
             if isinstance(cur, tuple) and cur and cur[0] == 'struct' and isinstance(cur[2], dict):
@@ -631,6 +694,19 @@ class VG:
             alts = [self.pat_cond(x, v) for x in p['pats']]
             if any(a == TRUE for a in alts):
                 return TRUE
+            alts = [a for a in alts if a != FALSE]
+            if not alts:
+                return FALSE
+            if len(alts) == 2 and all(isinstance(a, tuple) and a[:1] == ('op',) and len(a[2]) == 2 for a in alts) and alts[0][2] == alts[1][2]:
+                kinds = {alts[0][1], alts[1][1]}
+                if kinds == {'gt', 'eq'}:
+                    return op('ge', *alts[0][2])       # `Greater | Equal`
+                if kinds == {'lt', 'eq'}:
+                    return op('le', *alts[0][2])       # `Less | Equal`
+                if kinds == {'lt', 'gt'}:
+                    return op('ne', *alts[0][2]) if False else op('or', *alts)
+            if len(alts) == 1:
+                return alts[0]
             return op('or', *alts)
         if k == 'plit':
             if p.get('lit') == 'int':
@@ -757,6 +833,9 @@ class VG:
     def deref(self, v):
         if isinstance(v, tuple) and v and v[0] == 'ref':
             return self.read_place(v[1])
+        if isinstance(v, tuple) and v and v[0] == 'phi' and _is_ref_tree(v):
+            # a reference chosen by a condition (`if c { &mut self.a } else { &mut self.b }`): the chosen place's value
+            return phi(v[1], self.deref(v[2]), self.deref(v[3]))
         return v
 
     def value_noderef(self, e, fr):
@@ -897,6 +976,13 @@ class VG:
             return op(o, l, r)
         l = self.value(e['l'], fr)
         r = self.value(e['r'], fr)
+        if o in ('eq', 'ne') and any(isinstance(z, tuple) and z and z[0] in ('some', 'none') or
+                                     (isinstance(z, tuple) and z and z[0] == 'phi' and z[2][0] in ('some', 'none') and z[3][0] in ('some', 'none'))
+                                     for z in (l, r)):
+            # equality of two Option values, decided constructor by constructor
+            c_ = opt_eq(l, r)
+            if c_ is not None:
+                return c_ if o == 'eq' else neg_cond(c_)
         if o in ('eq', 'ne'):
             # `a.partial_cmp(&b).unwrap() == Ordering::Greater` (or `!=`): the comparison itself
             for x_, y_ in ((l, r), (r, l)):
@@ -1106,10 +1192,16 @@ class VG:
             if isinstance(a, tuple) and a and a[0] == 'ref':
                 a = self.deref(a)
             return some(a)              # the payload variant of an option-like enum
-        adt = self.F.adts.get(e.get('callee', {}).get('def'))
-        if adt is not None and adt.get('kind') == 'Struct' and e.get('callee', {}).get('krate') == self.F.raw['crate']:
+        cal = e.get('callee') or {}
+        if not cal and (e.get('fexpr') or {}).get('defkind') == 'SelfCtor':
+            # `Self(a, b)` inside an impl of a tuple struct of this crate
+            sadt = getattr(fr.fn, 'adt', None) if fr.fn is not None else None
+            if sadt in self.F.adts and self.F.adts[sadt].get('kind') == 'Struct':
+                return ('struct', sadt, {str(i): a for i, a in enumerate(args)})
+        adt = self.F.adts.get(cal.get('def'))
+        if adt is not None and adt.get('kind') == 'Struct' and cal.get('krate') == self.F.raw['crate']:
             # a tuple struct of this crate: its fields are `.0`, `.1`, .. (references stay references: a borrowing newtype)
-            return ('struct', e['callee']['def'], {str(i): a for i, a in enumerate(args)})
+            return ('struct', cal['def'], {str(i): a for i, a in enumerate(args)})
         return ('ctor', name, tuple(self.deref(a) for a in args))
 
     def v_closure(self, e, fr):
@@ -1711,6 +1803,9 @@ class VG:
                     if canon(f.defpath) == name:
                         target = f
                         break
+        if target is None and res and res in self.F.fn_by_def and not self.F.fn_by_def[res].derived:
+            # a std trait method (`From::from`, `Default::default`, `Into::into` ..) resolved to a hand-written impl of this crate
+            target = self.F.fn_by_def[res]
         if target is not None:
             return self.inline(e, fr, target)
         argv = [self.value_noderef(a, fr) for a in e['args']]
